@@ -121,7 +121,7 @@ def try_refute(prop, v, repo, seed):
     if unit in ("S64", "S32"):
         r = refute_scalar(64 if unit == "S64" else 32, name, repo, seed)
         return r if r is not None else refute_papi(unit, name, repo, seed)
-    if unit in ("ED", "RIS", "MONT", "SG", "SGR", "SM", "SM2", "SIG", "FG", "GRP"):
+    if unit in ("ED", "RIS", "MONT", "SG", "SGR", "SM", "SM2", "SIG", "FG", "GRP", "MSM", "VSM", "VMSM", "AVX2E", "AVX2F", "BATCH"):
         return refute_papi(unit, name, repo, seed)
     return None
 
@@ -335,7 +335,7 @@ def refute_papi(unit, fn, repo, seed):
     def add(rq, ex):
         reqs.append(rq); exps.append(ex)
 
-    fams = {"ED": ["ed"], "RIS": ["ris"], "MONT": ["mont"], "SG": ["sc"], "S64": ["sc"], "S32": ["sc"], "SGR": ["sc", "edmul"], "SM": ["edmul"],
+    fams = {"ED": ["ed"], "RIS": ["ris"], "MONT": ["mont"], "SG": ["sc"], "S64": ["sc"], "S32": ["sc"], "SGR": ["sc", "edmul"], "SM": ["edmul"], "SM2": ["edmul"], "MSM": ["edmul"], "VSM": ["edmul"], "VMSM": ["edmul"], "AVX2E": ["ed", "edmul"], "AVX2F": ["ed", "edmul"],
             "SIG": ["sig", "slices"], "GRP": ["grp", "ed", "ris"], "FG": ["ed", "ris"], "F64": ["ed"], "F32": ["ed"]}.get(unit, ["ed", "ris", "mont", "sc", "edmul", "sig", "slices", "grp"])
     valid_pts = []
     for b in encs:
